@@ -89,3 +89,15 @@ M("c09-D7-regress", "C09", "decoder/bds/bds09.py", "    if subtype in (1, 2) and
 M("c09-diff", "C09", "decoder/bds/bds09.py", "        return sign * (value - 1) * 25  # in ft.", "        return sign * (value - 1) * 25 if value != 64 else sign * 1600  # in ft.")
 M("c09-tas", "C09", "decoder/bds/bds09.py", '        if mb[24] == "0":\n            spd_type = "IAS"', '        if mb[24] == "0" or subtype == 4:\n            spd_type = "IAS"')
 M("c09-sh", "C09", "decoder/adsb.py", "    return spd, trk_or_hdg\n", "    return spd, trk_or_hdg if tag != 'TAS' else None\n")
+
+# ---- C11
+M("c11-slice", "C11", "decoder/bds/bds50.py", "    spd = common.bin2int(d[24:34]) * 2  # kts", "    spd = common.bin2int(d[25:34]) * 2  # kts")
+M("c11-twos", "C11", "decoder/bds/bds50.py", "    if sign:\n        value = value - 512\n\n    angle = value * 45 / 256  # degree", "    if sign:\n        value = value - 511\n\n    angle = value * 45 / 256  # degree")
+M("c11-mach", "C11", "decoder/bds/bds60.py", "    mach = common.bin2int(d[24:34]) * 2.048 / 512.0", "    mach = common.bin2int(d[24:34]) * 2.048 / 500.0")
+M("c11-wrap", "C11", "decoder/bds/bds50.py", "    if trk < 0:\n        trk = 360 + trk", "    if trk < -1:\n        trk = 360 + trk")
+M("c11-alias", "C11", "decoder/commb.py", "from .bds.bds50 import is50, roll50, trk50, gs50, rtrk50, tas50", "from .bds.bds50 import is50, roll50, trk50, rtrk50, tas50\nfrom .bds.bds50 import tas50 as gs50")
+M("c11-status", "C11", "decoder/bds/bds44.py", '    if d[34] == "0":\n        return None\n\n    p = common.bin2int(d[35:46])  # hPa', '    if d[35] == "0":\n        return None\n\n    p = common.bin2int(d[35:46])  # hPa')
+M("c11-cap17", "C11", "decoder/bds/bds17.py", '        "5F",\n        "60",', '        "60",\n        "5F",')
+M("c11-temp45", "C11", "decoder/bds/bds45.py", "    if sign:\n        value = value - 512\n\n    temp = value * 0.25  # celsius", "    if sign:\n        value = value - 512\n\n    temp = value * 0.25 if d[15] == '1' else None  # celsius")
+M("c11-vr53-regress", "C11", "decoder/bds/bds53.py", "    value = value - 256 if sign else value", "    value = value - 256 if sign and value != 255 else value")
+M("c11-hdg60", "C11", "decoder/bds/bds60.py", "    hdg = value * 90 / 512  # degree\n\n    # convert from [-180, 180] to [0, 360]\n    if hdg < 0:\n        hdg = 360 + hdg\n\n    return hdg\n\n\ndef ias60", "    hdg = value * 90 / 512  # degree\n\n    # convert from [-180, 180] to [0, 360]\n    if hdg <= 0:\n        hdg = 360 + hdg\n\n    return hdg\n\n\ndef ias60")
